@@ -227,9 +227,9 @@ func c13HistCfg(tier string) []*histCfg {
 
 func init() {
 	mc.Register(&mc.Check{
-		Prop: "C13",
-		Rule: "sequential: every history over {CreateScope(provider|scope, cancellable|inherited ctx), Get, GetKeyed, GetGroup, Close(scope|provider), cancel} up to the depth bound, each operation compared with the closed-means-closed model; overlapping: every schedule (preemption bound 2 quick / 3 thorough) of one closer || one in-flight operation, then retries on every closed object. An outcome is the canonical observation string of one execution.",
-		Assume: []string{"sequentially consistent interleavings at synchronisation granularity (justified by the race detector's silence)", "context cancellation is observed by the watcher goroutine as a scheduler-visible blocking operation"},
+		Prop:        "C13",
+		Rule:        "sequential: every history over {CreateScope(provider|scope, cancellable|inherited ctx), Get, GetKeyed, GetGroup, Close(scope|provider), cancel} up to the depth bound, each operation compared with the closed-means-closed model; overlapping: every schedule (preemption bound 2 quick / 3 thorough) of one closer || one in-flight operation, then retries on every closed object. An outcome is the canonical observation string of one execution.",
+		Assume:      []string{"sequentially consistent interleavings at synchronisation granularity (justified by the race detector's silence)", "context cancellation is observed by the watcher goroutine as a scheduler-visible blocking operation"},
 		MinOutcomes: 10,
 		Jobs: func(tier string) []mc.Job {
 			var jobs []mc.Job
